@@ -168,7 +168,10 @@ def run_property(pid, build, tier="quick", seed=0, budget_ms=None, thorough_extr
     for c in cross:
         for oid in c.get("disagreed", []): disagreements.append(f"CROSS-SOLVER-DISAGREEMENT {oid}: proved by z3 5.1.0, `sat` by {c.get('solver')}")
     for d in disagreements: lines.append(d)
-    if disagreements: exit_code = 3
+    confirmed_any = any(bool(r.get("replay_on_real_code") and r["replay_on_real_code"].get("violated")) or "failing_input" in r for r in violations)
+    # a violation replayed on the real code stands whatever else went wrong in the same run (disagreements are still printed); without one, a disagreement is a checker failure
+    if confirmed_any: exit_code = 1
+    elif disagreements: exit_code = 3
     elif violations: exit_code = 1
     elif undecided: exit_code = 2
     elif not real and not res.bounded: exit_code = 3; lines.append("no obligations were generated: vacuous run")
